@@ -6,6 +6,8 @@ import (
 	"fmt"
 	"testing"
 
+	"github.com/megaease/easegress/pkg/supervisor"
+
 	"pgregory.net/rapid"
 )
 
@@ -24,9 +26,45 @@ func TestVerifC05Mux(t *testing.T) {
 			rt.Fatalf("VF-INCONCLUSIVE generator produced a spec that validation rejects: %v\n%s", err, y)
 		}
 		seq, who := vfGenSeq(rt, srv, 4, 20, nil)
+		// optional hot update in the middle of the sequence: same rules, IP filters re-drawn at every
+		// level (the statement holds "whatever requests preceded it", also across a reload)
+		reloadAt := -1
+		var srv2 vfServer
+		if rapid.IntRange(0, 2).Draw(rt, "reload") == 0 {
+			reloadAt = rapid.IntRange(1, len(seq)-1).Draw(rt, "reloadAt")
+			srv2 = srv
+			srv2.Rules = make([]vfRule, len(srv.Rules))
+			srv2.IPF = nil
+			if rapid.Bool().Draw(rt, "srv2.ipf") {
+				srv2.IPF = vfGenIPF(rt, "srv2.ipf", vfIPPool)
+			}
+			for ri, r := range srv.Rules {
+				r2 := r
+				r2.Paths = append([]vfPath{}, r.Paths...)
+				if r.IPF != nil && rapid.Bool().Draw(rt, "r2.ipf") {
+					r2.IPF = vfGenIPF(rt, "r2.ipf", vfIPPool)
+				}
+				for pi := range r2.Paths {
+					if r2.Paths[pi].IPF != nil && rapid.Bool().Draw(rt, "p2.ipf") {
+						r2.Paths[pi].IPF = vfGenIPF(rt, "p2.ipf", vfIPPool)
+					}
+				}
+				srv2.Rules[ri] = r2
+			}
+			vf.Class("sequence-with-reload")
+		}
 		nontrivial := false
 		allowedKeys := map[string]bool{}
 		for i, req := range seq {
+			if i == reloadAt {
+				y2 := srv2.YAML()
+				ss2, err := supervisor.NewSpec(y2)
+				if err != nil {
+					rt.Fatalf("VF-INCONCLUSIVE reload spec rejected: %v\n%s", err, y2)
+				}
+				m.reload(ss2, mapper)
+				srv, y = srv2, y+"--- reloaded at #"+fmt.Sprint(i)+" with\n"+y2
+			}
 			ip := who[i].IP
 			got := vfServe(m, mapper, req)
 			k3 := req.Host + "\x00" + req.Method + "\x00" + req.Path
